@@ -221,7 +221,7 @@ func mutateTiles(r *core.Rng, a []c20Tile, maxLen int) ([]c20Tile, string) {
 func (C20) Gen(r *core.Rng, tier string, emit func(string)) {
 	nSync, nMk, nFault, nSmall := 70, 30, 50, 60
 	if tier == "thorough" {
-		nSync, nMk, nFault, nSmall = 900, 300, 500, 600
+		nSync, nMk, nFault, nSmall = 3000, 600, 2000, 1500
 	}
 	arch := func(tiles []c20Tile) []byte {
 		depth := 0
@@ -501,7 +501,8 @@ func (C20) RunGo(line string) string {
 		defer srv.Close()
 		url := "http://" + ln.Addr().String() + "/b.pmtiles"
 		cmd := exec.Command(os.Args[0], "syncchild", ap, url, dry)
-		cmd.Env = append(os.Environ(), "GOMAXPROCS=4")
+		// schedules: the hash workers and download threads run on 1, 2, 4 or 16 Ps, fixed per case
+		cmd.Env = append(os.Environ(), fmt.Sprintf("GOMAXPROCS=%d", []int{1, 2, 4, 16}[(len(body[4])+len(body[5]))%4]))
 		var stderr bytes.Buffer
 		cmd.Stderr = &stderr
 		done := make(chan struct{})
